@@ -1,19 +1,22 @@
 #!/bin/bash
-# usage: checks/c29/run.sh [quick|thorough] [--replay path]
+# usage: checks/c29/run.sh [quick|thorough] [--replay path] [--build-only]
 # C29's code under test is in package main of /repo/cmd/scriggo: the driver is a
 # _test.go file kept here and ADDED to that package by `go test -overlay`
 # (nothing under /repo is touched). The driver writes a JSON report that
 # checks/c29/main.go turns into evidence/C29.json, VIOLATION lines and the exit code.
+# --build-only: compile the reporter and the test binary, run nothing.
 set -u
 cd /verif
 . bin/env.sh
 tier=quick
 replay=""
+buildonly=0
 while [ $# -gt 0 ]; do
   case "$1" in
     quick|thorough) tier="$1"; shift;;
-    --replay) replay="$2"; shift 2;;
-    *) shift;;
+    --replay) replay="${2:-}"; shift; [ $# -gt 0 ] && shift;;
+    --build-only) buildonly=1; shift;;
+    *) shift;;  # unknown arguments are ignored
   esac
 done
 mkdir -p .build
@@ -22,20 +25,30 @@ if ! go build -tags verif -o .build/C29 ./checks/c29 2>.build/C29.buildlog; then
   echo "HARNESS-ERROR: build of C29's reporter failed" >&2
   exit 2
 fi
-work=$(mktemp -d /var/tmp/verif-c29-XXXXXX)
-trap 'rm -rf "$work"' EXIT
-cat > "$work/overlay.json" <<JSON
+cat > .build/C29.overlay.json <<JSON
 {"Replace": {"/repo/cmd/scriggo/verif_c29_test.go": "/verif/checks/c29/verif_c29_test.go.txt"}}
 JSON
+# the test binary of cmd/scriggo with the driver added (rebuilt from /repo's current tree)
+if ! (cd /repo && go test -c -overlay /verif/.build/C29.overlay.json -vet=off -o /verif/.build/C29.test github.com/open2b/scriggo/cmd/scriggo) >.build/C29.testbuildlog 2>&1; then
+  cat .build/C29.testbuildlog >&2
+  echo "HARNESS-ERROR: build of the C29 driver (go test -c -overlay) against /repo's working tree failed" >&2
+  exit 2
+fi
+if [ "$buildonly" = 1 ]; then
+  exit 0
+fi
+work=$(mktemp -d /var/tmp/verif-c29-XXXXXX)
+trap 'rm -rf "$work"' EXIT
 export VERIF_C29_OUT="$work/report.json"
 export VERIF_TIER="$tier"
 if [ -n "$replay" ]; then
-  export VERIF_C29_REPLAY="$(/verif/.build/C29 --replay-target "$replay")" || exit 2
+  VERIF_C29_REPLAY="$(/verif/.build/C29 --replay-target "$replay")" || exit 2
+  export VERIF_C29_REPLAY
 fi
 start=$(date +%s.%N)
-if ! (cd /repo && go test -overlay "$work/overlay.json" -vet=off -run 'TestVerifC29$' -count=1 -timeout 30m github.com/open2b/scriggo/cmd/scriggo) >"$work/gotest.log" 2>&1; then
+if ! (cd /repo/cmd/scriggo && /verif/.build/C29.test -test.run 'TestVerifC29$' -test.count=1 -test.timeout 30m) >"$work/gotest.log" 2>&1; then
   cat "$work/gotest.log" >&2
-  echo "HARNESS-ERROR: go test of the C29 driver failed" >&2
+  echo "HARNESS-ERROR: the C29 driver (go test) failed" >&2
   exit 2
 fi
 if [ ! -s "$work/report.json" ]; then
@@ -44,6 +57,8 @@ if [ ! -s "$work/report.json" ]; then
   exit 2
 fi
 if [ -n "$replay" ]; then
-  exec /verif/.build/C29 --report "$work/report.json" --start "$start" --replay "$replay" "$tier"
+  /verif/.build/C29 --report "$work/report.json" --start "$start" --replay "$replay" "$tier"
+  exit $?
 fi
-exec /verif/.build/C29 --report "$work/report.json" --start "$start" "$tier"
+/verif/.build/C29 --report "$work/report.json" --start "$start" "$tier"
+exit $?
